@@ -225,6 +225,22 @@ func (s *state) CheckBody(ctx context.Context, hdr textproto.Header, _ buffer.Bu
 	}
 	authName := s.msgMeta.Conn.AuthUser
 
+	// hdr.Get returns only the first field: a message with several From
+	// fields (not allowed by RFC 5322) would be judged by the first one only.
+	fromFields := 0
+	for fields := hdr.FieldsByKey("From"); fields.Next(); {
+		fromFields++
+	}
+	if fromFields > 1 {
+		return s.c.errAction.Apply(module.CheckResult{
+			Reason: &exterrors.SMTPError{
+				Code:         550,
+				EnhancedCode: exterrors.EnhancedCode{5, 7, 0},
+				Message:      "Multiple From header fields are not allowed",
+				CheckName:    modName,
+			}})
+	}
+
 	fromHdr := hdr.Get("From")
 	if fromHdr == "" {
 		return s.c.errAction.Apply(module.CheckResult{
